@@ -182,6 +182,7 @@ func (t *Target) Drain(timeout time.Duration) {
 	if originalState == TargetStateDraining {
 		return
 	}
+	defer t.drainCompleted()
 	defer t.updateState(originalState)
 
 	deadline := time.After(timeout)
@@ -206,6 +207,15 @@ WAIT_FOR_REQUESTS_TO_COMPLETE:
 	// Cancel any remaining requests.
 	for _, inflight := range toCancel {
 		inflight.cancel(ErrorDraining)
+	}
+}
+
+// drainCompleted runs once Drain has put back the state it found: the load
+// balancer may have rebuilt its rotation while this target was draining, so
+// it is told to look at the target again.
+func (t *Target) drainCompleted() {
+	if t.stateConsumer != nil {
+		t.stateConsumer.TargetStateChanged(t)
 	}
 }
 
@@ -254,6 +264,9 @@ func (t *Target) HealthCheckCompleted(success bool) {
 			case TargetStateAdding:
 				t.state = TargetStateHealthy
 				close(t.becameHealthy)
+			case TargetStateDraining:
+				// A drain is in progress: the target keeps refusing new
+				// requests until Drain puts back the state it found.
 			default:
 				t.state = TargetStateHealthy
 			}
